@@ -26,13 +26,17 @@ Finding keys: compress/<clause>:<question|owner|rdata:TYPE>  (clauses: not-trans
         pointer-in-uncompressible-rdata, pointer-target-beyond-limit, pointer-not-backwards, pointer-not-to-a-name-suffix, name-invalid),
         compress/compressed-unreadable:<types>, compress/pack-error:<types>, compress/input-rejected|input-misread|input-panic:<TYPE>.
 
-Mutants (checks/mutants/C04/*.diff; each `VERIF_REPO=/tmp/comp-x bin/check C04 quick` exits 1), stage that catches each:
-  lowercase-key.diff        compression-map key lower-cased                 -> replay family/types + TV: compress/not-transparent (case lost)
-  insert-at-limit.diff      insert when off <= maxCompressionOffset         -> replay pad + TV big: compress/compressed-unreadable / not-transparent
-                            (offset 16384 does not fit 14 bits: the pointer lands on offset 0)
-  rt-host-cdomain.diff      RT.Host tagged cdomain-name                     -> replay types + TV: compress/pointer-in-uncompressible-rdata:RT
-  compress-when-off.diff    pointers although Compress = false              -> every stage: compress/pointer-when-compress-off
-  pointer-non-suffix.diff   lookup by the last label only                   -> replay family + TV: compress/not-transparent
+Mutants (checks/mutants/C04/*.diff; each `VERIF_REPO=/tmp/comp-x bin/check C04 quick` exits 1), stage that catches each (quick tier):
+  lowercase-key.diff        compression-map key lower-cased                 -> replay family / multiq / types + TV small and big:
+                            compress/not-transparent:owner|question|rdata:<TYPE> (the pointed-to suffix has another letter case)
+  insert-at-limit.diff      insert when off <= maxCompressionOffset         -> replay pad (first occurrence at exactly 16384: the pointer
+                            0xC000^16384 = 0x8000 is a reserved label type): compress/compressed-unreadable (harness walker; TLC's own
+                            walk of the same octets agrees); TV big when a label lands on 16384
+  rt-host-cdomain.diff      RT.Host tagged cdomain-name / packed compressible -> replay types + TV: compress/pointer-in-uncompressible-rdata:rdata:RT
+  compress-when-off.diff    compression map used although Compress = false -> every stage: compress/pointer-when-compress-off:owner|question|rdata:*
+  pointer-non-suffix.diff   map entry records the offset of the NEXT label  -> replay family + TV: compress/not-transparent:* (a label is lost),
+                            compress/compressed-unreadable
+Non-vacuity of MC_Compress (run by hand, each invariant must be violated): NoPointerEver, NoLimitCrossed, AlwaysImpl, NoDeviationDecodes.
 """
 import os, json
 import vp
